@@ -610,15 +610,34 @@ func (g *G) genInst(c *cur) {
 		}
 		c.add(in)
 	case 20: // cmpxchg / atomicrmw
+		// integer cells for everything; floating-point cells for atomicrmw xchg/fadd/fsub and pointer cells for
+		// cmpxchg (LangRef 14: cmpxchg takes an integer or a pointer, xchg an integer or a floating-point value)
 		ps := c.find(func(t *am.Type) bool {
 			return t.K == am.Ptr && t.Elem.K == am.Int && g.atomicOK(t.Elem)
 		})
+		if g.chance("atomNonInt", 1, 3) {
+			if alt := c.find(func(t *am.Type) bool {
+				return t.K == am.Ptr && (t.Elem.K == am.Float || t.Elem.K == am.Ptr && t.Elem.Elem.K != am.Func) && g.atomicOK(t.Elem)
+			}); len(alt) > 0 {
+				ps = alt
+			}
+		}
 		if len(ps) == 0 {
 			return
 		}
 		p := ps[g.intn("atomptr", len(ps))]
 		et := p.Type().Elem
-		if g.chance("cmpxchg", 1, 2) {
+		if et.K == am.Float {
+			in := &am.Inst{Op: "atomicrmw", T: et, Args: []*am.Value{p, c.val(et)}, Volatile: g.chance("vol", 1, 4)}
+			in.RMWOp = g.pick("rmwf", []string{"xchg", "xchg", "fadd", "fsub"})
+			in.Ordering = g.pick("rmwo", []string{"monotonic", "acquire", "release", "acq_rel", "seq_cst"})
+			if g.chance("ss", 1, 3) {
+				in.SyncScope = g.pick("ssn", []string{"singlethread", "agent", "my scope"})
+			}
+			c.add(in)
+			return
+		}
+		if et.K == am.Ptr || g.chance("cmpxchg", 1, 2) {
 			in := &am.Inst{Op: "cmpxchg", T: am.S(et, am.I1), Args: []*am.Value{p, c.val(et), c.val(et)},
 				Weak: g.chance("weak", 1, 3), Volatile: g.chance("vol", 1, 4)}
 			in.Ordering = g.pick("cxs", []string{"monotonic", "acquire", "release", "acq_rel", "seq_cst"})
